@@ -11,27 +11,35 @@ contains CR/LF/NUL, a rejected value never appears, emitted values are Latin-1-e
 decode back (UTF-8) to str(original), one entry per value in order, entity headers on the RFC 2616 per-status
 blacklist are absent whatever their spelling, and the default Content-Type is added exactly when none was set and
 the status allows one.
+E-SCHED layer: a handler ending with status 204 / 304 (set, raised or returned) after setting entity headers, and a
+plain 200 handler, on two threads of one application, all schedules with <= 1 (thorough 2) preemptions at source
+lines: the 204 / 304 never carries a withheld header and the 200 keeps its own.
 """
 import itertools
+import os
 from email.utils import formatdate
 
 from vf import core, sut, wsgi
 
 ID = 'C14'
 TITLE = 'Response header values cannot split the response and are wire-safe'
-ENGINE = 'E-ENUM (values x setter entry points x names x statuses, single operations and all 2-operation sequences)'
+ENGINE = ('E-ENUM (values x setter entry points x names x statuses, single operations and all 2-operation sequences) + '
+          'E-SCHED (204/304 and 200 responses on two threads)')
 RULE = ('states = distinct (entry-point sequence, names, values, status) programs; transitions = setter calls on real '
         'response objects; non-trivial = programs with a control character, a non-ASCII character, a non-str value, '
         'a blacklisted name or two operations')
 ASSUMPTIONS = ['lone surrogates are not "Unicode text"; update(), list arguments to setdefault and direct _headers access '
                'are not single-value setters', 'header names compare case-insensitively for the blacklist and the default Content-Type']
 MANIFEST = {
-    'engines': ['E-ENUM'],
+    'engines': ['E-ENUM', 'E-SCHED'],
     'technique': 'bounded-exhaustive enumeration of header-setter programs on the real response classes (and through '
-                 'Ombott.__call__ for the thread-local Response) against an independent ordered header-store model',
+                 'Ombott.__call__ for the thread-local Response) against an independent ordered header-store model; '
+                 'stateless exploration of all two-thread schedules (preemption-bounded) for the per-status withheld headers',
     'text': 'All 584 strings over an 8-symbol control/non-ASCII alphabet up to length 3 plus 9 non-string values are '
             'offered through every setter entry point, for 6 names and 4 statuses; all two-operation sequences over a '
-            '16-value core. The emitted header list must equal the model and never contain CR/LF/NUL.',
+            '16-value core. The emitted header list must equal the model and never contain CR/LF/NUL. A 204/304 '
+            'response and a 200 response served on two threads of one application under every schedule with <=1 (thorough 2) '
+            'preemptions keep the per-status withholding.',
     'note': 'Bounds: value length <=3 (thorough 4), <=2 operations. Trusted: CPython, email.utils.formatdate, the model here.',
 }
 
@@ -228,6 +236,56 @@ def judge(om, prog, status, via):
     return None
 
 
+# ---- two threads on one application (E-SCHED): the withheld entity headers are a per-response matter ------------------
+
+HERE = os.path.abspath(__file__)
+ENTITY = {'Content-Type': 'text/plain', 'Content-Length': '3', 'Last-Modified': 'Sun, 13 Sep 2020 12:26:40 GMT',
+          'Content-Language': 'en', 'Allow': 'GET'}
+
+
+def run_threads(om, st, how, prefix):
+    """thread 0: a handler that ends with status `st` (204 / 304) after setting entity headers; thread 1: a plain 200"""
+    from vf.sched import Scheduler
+    app = om.Ombott()
+
+    def bare():
+        for k, v in ENTITY.items():
+            app.response.headers[k] = v
+        if how == 'set':
+            app.response.status = st
+            return ''
+        if how == 'raise':
+            raise om.HTTPResponse('', st, **{k.replace('-', '_'): v for k, v in ENTITY.items()})
+        return om.HTTPResponse('', st, **{k.replace('-', '_'): v for k, v in ENTITY.items()})
+
+    def plain():
+        app.response.headers['X-Plain'] = '1'
+        return 'abc'
+    app.route('/bare', 'GET', bare)
+    app.route('/plain', 'GET', plain)
+    progs = [lambda: wsgi.call(app, wsgi.environ('GET', '/bare')), lambda: wsgi.call(app, wsgi.environ('GET', '/plain'))]
+    sp = os.path.join(os.path.realpath(sut.SRC), 'ombott') + os.sep
+    return Scheduler(progs, prefix, lambda fn: fn.startswith(sp) or fn == HERE).run()
+
+
+def judge_threads(st, x):
+    if x.hung:
+        return 'threads:hang', 'a thread did not finish'
+    for t, e in x.errors.items():
+        return 'threads:error', f'thread {t} raised {type(e).__name__}: {e}'
+    a, b = x.results[0], x.results[1]
+    if a.code != st or b.code != 200:
+        return 'threads:status', f'statuses {a.status!r} / {b.status!r}, expected {st} / 200'
+    names = [k.lower() for k, _ in a.headers]
+    leaked = sorted(set(names) & BLACKLIST[st])
+    if leaked:
+        return 'threads:entity-header-emitted', f'the {st} response carries {leaked} (headers {a.headers!r})'
+    hb = dict((k.lower(), v) for k, v in b.headers)
+    if hb.get('content-length') != '3' or 'content-type' not in hb or hb.get('x-plain') != '1' or b.body != b'abc':
+        return 'threads:plain-damaged', f'the 200 response lost its own headers: {b.headers!r} body {b.body!r}'
+    return None
+
+
 # ---- enumeration -------------------------------------------------------------------------------------------------
 
 def shards(tier, seed):
@@ -249,6 +307,10 @@ def shards(tier, seed):
     out.append(('pair', 'ctor_dict', 'append', None, 'base'))
     out.append(('pair', 'ctor_list', 'setitem', None, 'base'))
     out.append(('pair', 'append', 'append', None, 'wsgi'))
+    for st in (204, 304):
+        for how in ('set', 'raise', 'return'):
+            for start in (0, 1):
+                out.insert(0, ('threads', st, how, start, 1 if tier == 'quick' else 2))
     # seed extension: one more character joins the alphabet (all strings <= 2 containing it, all dict ops)
     out.append(('extra', ['\x0b', '\x0c', '\x85', ' ', '\x7f', '\x1b', '\xff'][seed % 7], None, 2, 'base'))
     return out
@@ -259,11 +321,35 @@ def bounds(tier, seed):
             'names': NAMES, 'statuses': STATUSES, 'entry_points': DICT_OPS + ATTR_OPS + CTOR_OPS, 'max_operations': 2}
 
 
-FLOORS = {'rejected': 1000, 'accepted': 1000, 'blacklisted_withheld': 100, 'non_ascii_roundtrip': 500, 'multi_valued': 100,
+FLOORS = {'schedules': 1000, 'rejected': 1000, 'accepted': 1000, 'blacklisted_withheld': 100, 'non_ascii_roundtrip': 500, 'multi_valued': 100,
           'wsgi_programs': 200}
 
 
+def work_threads(spec):
+    from vf.sched import explore
+    _, st, how, start, bound = spec
+    res = core.new_result()
+    om = sut.load()
+    c = res['counters']
+    for prefix, x in explore(lambda p: run_threads(om, st, how, p), bound, base=(start,)):
+        res['states'] += 1
+        res['transitions'] += len(x.points)
+        c['schedules'] += 1
+        if x.switches:
+            res['nontrivial'] += 1
+        v = judge_threads(st, x)
+        res['outcomes'].add(f'threads {st} {how} -> {"ok" if v is None else v[0]}')
+        if v is not None:
+            core.add_violation(res, {'kind': 'threads', 'status': st, 'how': how, 'choices': list(x.choices)},
+                               f'status {st} ({how}) and a plain 200 on two threads, {x.switches} switches: {v[1]}', sig=v[0])
+    res['execs'] = res['states']
+    core.add_sample(res, {'threads': [f'{st} via {how}', 'plain 200'], 'first_thread': start, 'preemption_bound': bound, 'schedules': c['schedules']})
+    return res
+
+
 def work(spec):
+    if spec[0] == 'threads':
+        return work_threads(spec)
     kind, a, b, n, via = spec
     res = core.new_result()
     om = sut.load()
@@ -325,6 +411,14 @@ def work(spec):
 
 def replay(case):
     om = sut.load()
+    if case.get('kind') == 'threads':
+        x = run_threads(om, case['status'], case['how'], tuple(case['choices']))
+        v = judge_threads(case['status'], x)
+        if v is None:
+            return None
+        sw = [(i, ch) for i, ch in enumerate(x.choices) if ch]
+        return (f'one application, two threads: a handler ending with status {case["status"]} ({case["how"]}) after setting entity headers, and a plain 200; '
+                f'switches at {sw[:8]}: {v[1]}')
     prog = [(op, name, (NONSTR[v - 1000] if isinstance(v, int) and not isinstance(v, bool) and v >= 1000 else v))
             for op, name, v in case['prog']]
     v = judge(om, prog, case['status'], case['via'])
